@@ -55,10 +55,65 @@ def gen_script(rnd, kind=None):
     return kind, s
 
 
-def run_script(binary, script, sched_seed, trace_path, clock=None, watchdog=40, final_wait=0.0):
+OPTIONS = [("Threads", ["1", "2", "3", "0", "600", "abc"]), ("Hash", ["1", "4", "32", "0", "-5", "99999999", "x"]), ("MultiPV", ["1", "2", "5", "0", "999"]),
+           ("Ponder", ["true", "false", "maybe"]), ("UCI_AnalyseMode", ["true", "false"]), ("OwnBook", ["true", "false"]), ("BookFile", ["", "/nonexistent.bin"]),
+           ("UseNullMove", ["true", "false"]), ("AnalysisAgeHash", ["true", "false"]), ("Clear Hash", [""]), ("Strength", ["0", "500", "1000", "1001", "-1"]),
+           ("MaxNPS", ["0", "5000", "-3"]), ("UCI_LimitStrength", ["true", "false"]), ("UCI_Elo", ["-625", "1500", "2900", "5000"]),
+           ("Contempt", ["0", "50", "-2000", "2001"]), ("AnalyzeContempt", ["0", "-30"]), ("AutoContempt", ["true", "false"]), ("ContemptFile", ["", "/nonexistent"]),
+           ("UCI_Opponent", ["none none human Bob", "GM 2800 computer X"]), ("GaviotaTbPath", ["", "/nonexistent"]), ("GaviotaTbCache", ["1", "64"]),
+           ("SyzygyPath", ["", "/nonexistent"]), ("MinProbeDepth", ["0", "1", "100", "101"]), ("BufferTime", ["1", "1000", "10000", "0"]),
+           ("NoSuchOption", ["1"])]
+
+
+def gen_session(rnd, maxlen=60):
+    """A UCI session over the whole command alphabet (C05): returns (script, ends_with_eof)."""
+    n = rnd.randint(3, maxlen)
+    s = []
+    if rnd.random() < 0.7:
+        s.append(("uci", 0))
+    for _ in range(n):
+        r = rnd.random()
+        dly = rnd.choice([0, 0, 0, 0.002, 0.01, 0.03])
+        if r < 0.22:
+            base = rnd.choice(FENS)
+            moves = rnd.choice(["", "", " moves e2e4", " moves e2e4 e7e5 g1f3"]) if base == "startpos" else ""
+            s.append(("position " + base + moves, dly))
+            go = rnd.choice(["go depth 1", "go depth 4", "go depth 6", "go nodes 2000", "go movetime 20", "go wtime 300 btime 300 winc 10 binc 10",
+                             "go wtime 50 btime 50 movestogo 3", "go mate 2", "go infinite", "go ponder depth 4", "go ponder wtime 100 btime 100",
+                             "go depth 3 searchmoves e2e4 d2d4", "go", "go depth", "go wtime", "go infinite searchmoves"])
+            s.append((go, dly))
+        elif r < 0.34:
+            s.append(("stop", dly))
+        elif r < 0.42:
+            s.append(("ponderhit", dly))
+        elif r < 0.56:
+            s.append(("isready", dly))
+        elif r < 0.78:
+            name, vals = rnd.choice(OPTIONS)
+            v = rnd.choice(vals)
+            s.append((f"setoption name {name}" + (f" value {v}" if v != "" or rnd.random() < 0.5 else ""), dly))
+        elif r < 0.83:
+            s.append(("ucinewgame", dly))
+        elif r < 0.87:
+            s.append(("uci", dly))
+        elif r < 0.93:
+            s.append((rnd.choice(["", "   ", "xyzzy", "go2 depth 3", "position", "position fen", "setoption", "setoption name", "debug on", "register later",
+                                  "position fen 8/8/8/8/8/8/8/8 w - - 0 1", "position startpos moves e2e5", "isready now"]), dly))
+        else:
+            s.append(("stop", dly))
+    return s, rnd.random() < 0.25
+
+
+def run_script(binary, script, sched_seed, trace_path, clock=None, watchdog=40, final_wait=0.0, eof=False, extra_env=None):
     env = dict(os.environ, VERIF_TRACE=trace_path, VERIF_SCHED=str(sched_seed), VERIF_WATCHDOG=str(watchdog))
     if clock:
         env["VERIF_CLOCK"] = str(clock)
+    if extra_env:
+        env.update(extra_env)
+    if not trace_path:
+        env.pop("VERIF_TRACE", None)
+    if sched_seed is None:
+        env.pop("VERIF_SCHED", None)
     p = subprocess.Popen([binary], stdin=subprocess.PIPE, stdout=subprocess.PIPE, stderr=subprocess.PIPE, text=True, bufsize=1, env=env)
     out = []
     t = threading.Thread(target=lambda: out.extend(l.rstrip("\n") for l in p.stdout), daemon=True)
@@ -71,8 +126,11 @@ def run_script(binary, script, sched_seed, trace_path, clock=None, watchdog=40, 
             p.stdin.flush()
         if final_wait:
             time.sleep(final_wait)
-        p.stdin.write("quit\n")
-        p.stdin.flush()
+        if eof:
+            p.stdin.close()
+        else:
+            p.stdin.write("quit\n")
+            p.stdin.flush()
     except (BrokenPipeError, OSError):
         pass
     try:
@@ -83,3 +141,19 @@ def run_script(binary, script, sched_seed, trace_path, clock=None, watchdog=40, 
     t.join(timeout=5)
     err = p.stderr.read()[-2000:] if p.stderr else ""
     return rc, out, err
+
+
+def annotate(body):
+    """Add the first token of each command line to Cmd events (TLC has no string splitting)."""
+    out = []
+    for line in body.split("\n"):
+        if '"e":"Cmd"' in line:
+            try:
+                d = json.loads(line)
+                tok = d.get("txt", "").split()
+                d["cmd0"] = tok[0] if tok else ""
+                line = json.dumps(d)
+            except Exception:
+                pass
+        out.append(line)
+    return "\n".join(out)
